@@ -1,7 +1,9 @@
 _E1 = ["lnwallet/e1_engine_test.go", "lnwallet/e1_oracles_test.go", "lnwallet/e1_fork_test.go", "lnwallet/e1_debug_test.go"]
+E1X = ["common", "e1_engine.go=lnwallet/e1_engine_test.go", "e1_oracles.go=lnwallet/e1_oracles_test.go",
+       "e1_fork.go=lnwallet/e1_fork_test.go", "e1_debug.go=lnwallet/e1_debug_test.go", "lnwallet/e1_export.go"]
 PROP = {
     "level": "exploration",
-    "technique": "runtime monitor: both real LightningChannels build/sign/complete the cooperative close over a fee x script lattice on HTLC-free states reached by E1 schedules; byte identity, btcd script interpreter, exact-output oracle written from the statement",
+    "technique": "runtime monitor: both real LightningChannels (and two real ChanClosers for the legacy negotiation) build/sign/complete the cooperative close over a fee x script lattice on HTLC-free states reached by E1 schedules; byte identity, btcd script interpreter, exact-output oracle written from the statement, bounded-progress oracle for the negotiation",
     "level_text": ("HTLC-free states with arbitrary msat balances (after settles/fails/fee updates, reconnects, either opener, all 7 "
                    "channel types, musig2 closing sessions for taproot) are reached by running real E1 schedules; on fresh reloads of "
                    "both sides a lattice of fees (0 .. above the payer's balance), delivery script pairs (P2WPKH/P2WSH/P2TR, equal "
@@ -9,8 +11,10 @@ PROP = {
                    "each signature must verify (CompleteCooperativeClose on both sides after a wire round trip of the signatures), the "
                    "completed tx must pass btcd's interpreter against the harness-derived funding script and its outputs must equal "
                    "balance (+commit fee+anchors for the opener) - fee (payer), omitted below the owner's dust limit, sum+fee<=capacity."),
-    "level_note": ("legacy fee negotiation and the RBF-coop state machine are separate units (see units list; absent units are "
-                   "not claimed); held on the trials counted in evidence."),
+    "level_note": ("transaction level + legacy negotiation (two real ChanClosers over the real channels, ideal-fee lattice "
+                   "[100..50000] sat^2, caps containing the other's ideal; finishes on both sides, <=200 messages, final fee among "
+                   "the offers both signed, identical valid tx). The RBF-coop state machine (rbf_coop_transitions) is NOT driven: "
+                   "its protofsm environment was not wired in this build; 'terminates' is bounded progress; held on the trials counted."),
     "design_ref": "DESIGN.md §3 C17",
     "rule": ("case = E1 schedule in which every HTLC is eventually resolved, then 6 PRNG trials (fee, script pair, payer) on "
              "reloaded copies; non-trivial = completed closes; distinct = (channel type, opener, payer option, number of outputs, "
@@ -23,5 +27,12 @@ PROP = {
         "watchdog": {"quick": 900, "thorough": 5400},
         "floors": {"quick": {"trials": 1500, "oracle_exact_outputs": 800, "unaffordable_trials": 100},
                    "thorough": {"trials": 40000}},
+    }, {
+        "name": "negotiation", "pkg": "lnwallet/chancloser", "test": "TestVerifC17Negotiation",
+        "files": ["lnwallet/chancloser/c17neg_test.go"], "exports": {"lnwallet": E1X},
+        "shards": {"quick": 8, "thorough": 16},
+        "watchdog": {"quick": 900, "thorough": 5400},
+        "floors": {"quick": {"nontrivial": 150, "oracle_terminates": 150},
+                   "thorough": {"nontrivial": 5000}},
     }],
 }
